@@ -266,6 +266,46 @@ def d5(ctx, rep):
         rep.undecided('D5.column', fit, anchor, f'the per-column fit was not recognised ({vu})', construct='index agreement in _fit_columns')
 
 
+def _fallback_model(ctx, fn, expr, colnames, depth):
+    """Follows a returned expression through private helpers: (True | False | None, anchor node, function).
+    True: a GaussianUnivariate constructed, fitted on the column (one of `colnames`) and returned."""
+    from ..idioms import resolve
+    prog = ctx.prog
+    GU = 'copulas.univariate.gaussian.GaussianUnivariate'
+    if depth > 4:
+        return None, None, None
+    e = resolve(fn.node, expr) if isinstance(expr, ast.Name) else expr
+    if isinstance(e, ast.Call) and prog.resolve(fn.module, e.func) == GU:
+        if not isinstance(expr, ast.Name):
+            return False, e, fn  # a fresh, unfitted model is returned
+        var = expr.id
+        fits = [c for c in walk_no_nested(fn.node) if isinstance(c, ast.Call) and isinstance(c.func, ast.Attribute) and c.func.attr == 'fit'
+                and isinstance(c.func.value, ast.Name) and c.func.value.id == var]
+        if not fits:
+            return False, e, fn
+        ok = all(c.args and isinstance(c.args[0], ast.Name) and c.args[0].id in colnames for c in fits)
+        known = all(c.args and isinstance(c.args[0], ast.Name) for c in fits)
+        return (True if ok else (False if known else None)), fits[0], fn
+    if isinstance(e, ast.Call):
+        tg = [x for x in ctx.cg.targets(fn, e) if x.kind == 'proj' and not x.how.startswith('decorator') and x.how != 'by method name']
+        if len(tg) != 1:
+            return None, None, None
+        g = tg[0].fn
+        from .c20 import get_alias
+        b = get_alias(ctx).bind(fn, e, g)
+        inner = {p for p, args in b.items() if any(isinstance(a, ast.Name) and a.id in colnames for a in args)}
+        rets = [n for n in walk_no_nested(g.node) if isinstance(n, ast.Return) and n.value is not None]
+        if not rets:
+            return None, None, None
+        out = [_fallback_model(ctx, g, r.value, inner, depth + 1) for r in rets]
+        if any(v is False for v, _w, _f in out):
+            return next(o for o in out if o[0] is False)
+        if all(v is True for v, _w, _f in out):
+            return out[0]
+        return None, None, None
+    return None, None, None
+
+
 def d6(ctx, rep):
     prog = ctx.prog
     rep.rule('D6.fallback', 'if fitting the configured distribution raises, the column is modelled by a GaussianUnivariate fitted on the same column and that model is returned')
@@ -298,28 +338,26 @@ def d6(ctx, rep):
     rep.check('D6.fallback', fn, reassigned[0] if reassigned else t, bool(good), 'the handler replaces the model that is returned',
               'the fallback model is not the one returned', construct='handler result returned')
     if reassigned:
+        verdict, where, wfn = _fallback_model(ctx, fn, reassigned[2], {colp}, 0)
+        if verdict is None:
+            rep.undecided('D6.fallback', wfn or fn, where or reassigned[0], 'what the handler returns could not be followed to a model construction', construct='fallback model')
+        else:
+            rep.check('D6.fallback', wfn or fn, where or reassigned[0], verdict, 'GaussianUnivariate() fitted on the same column and returned',
+                      'the fallback is not a GaussianUnivariate fitted on the failing column', construct='fallback model')
+        # the fallback path itself must not be able to raise before the Gaussian is fitted: no partial operation on
+        # the objects it is handed (their type is exactly what is in doubt on this path)
         tg = [x for x in ctx.cg.targets(fn, reassigned[2]) if x.kind == 'proj' and not x.how.startswith('decorator')]
         fb = tg[0].fn if tg else None
         if fb is None:
-            rep.undecided('D6.fallback', fn, reassigned[0], 'fallback helper not resolved', construct='fallback helper')
             return
         from .c20 import get_alias
         b = get_alias(ctx).bind(fn, reassigned[2], fb)
         cparam = [p for p, args in b.items() if any(isinstance(a, ast.Name) and a.id == colp for a in args)]
-        made = [s for s in walk_no_nested(fb.node) if isinstance(s, ast.Assign) and isinstance(s.value, ast.Call)
-                and prog.resolve(fb.module, s.value.func) == 'copulas.univariate.gaussian.GaussianUnivariate']
-        gv = made[0].targets[0].id if made and isinstance(made[0].targets[0], ast.Name) else None
-        fitted = [c for c in walk_no_nested(fb.node) if isinstance(c, ast.Call) and isinstance(c.func, ast.Attribute) and c.func.attr == 'fit'
-                  and isinstance(c.func.value, ast.Name) and c.func.value.id == gv and c.args and isinstance(c.args[0], ast.Name)
-                  and c.args[0].id in cparam]
-        frets = [n for n in walk_no_nested(fb.node) if isinstance(n, ast.Return)]
-        good = bool(made and fitted and frets) and all(isinstance(r.value, ast.Name) and r.value.id == gv for r in frets)
-        rep.check('D6.fallback', fb, made[0] if made else fb.node.name, good, 'GaussianUnivariate() fitted on the same column and returned',
-                  'the fallback is not a GaussianUnivariate fitted on the failing column', construct='fallback model')
-        # the fallback path itself must not be able to raise before the Gaussian is fitted: no partial operation on
-        # the objects it is handed (their type is exactly what is in doubt on this path)
         others = [p for p in fb.params[1:] if p not in cparam]
-        stop = fitted[0].lineno if fitted else 10 ** 9
+        fitted = [c for c in walk_no_nested(fb.node) if isinstance(c, ast.Call) and isinstance(c.func, ast.Attribute) and c.func.attr == 'fit']
+        fitted += [c for c in walk_no_nested(fb.node) if isinstance(c, ast.Call) and any(isinstance(a, ast.Name) and a.id in cparam for a in c.args)
+                   and any(t_.kind == 'proj' for t_ in ctx.cg.targets(fb, c))]
+        stop = min(c.lineno for c in fitted) if fitted else 10 ** 9
         for n in walk_no_nested(fb.node):
             if getattr(n, 'lineno', 0) > stop:
                 continue
